@@ -32,14 +32,22 @@ type defaultMkdirerSimple struct {
 }
 
 func (dm *defaultMkdirerSimple) mkdir(roots []*Node) error {
-	if dm.isExistRoot(roots) {
-		return ErrExistPath
+	if err := dm.checkRoots(roots); err != nil {
+		return err
 	}
 
 	for _, root := range roots {
 		if err := dm.makeDirectoriesAndFiles(root); err != nil {
 			return err
 		}
+	}
+	return nil
+}
+
+// checkRoots returns ErrExistPath if any root already exists.
+func (dm *defaultMkdirerSimple) checkRoots(roots []*Node) error {
+	if dm.isExistRoot(roots) {
+		return ErrExistPath
 	}
 	return nil
 }
